@@ -315,6 +315,30 @@ pub fn streams_with(tier: &str, lists: usize) -> Vec<StreamGen> {
         };
         v.push(stream_gen("v9-wide-templates", nw * 6, move |i| Some(mk(i))));
     }
+    // 7b. the same field type listed twice (or three times) with different widths: every occurrence is decoded at its
+    // own width and position
+    {
+        let menu: Vec<(u16, Vec<u16>)> = vec![(1, vec![1, 2, 4, 8]), (96, vec![2, 5, 9]), (95, vec![1, 3]), (21, vec![4, 8])];
+        let mut cases: Vec<Vec<FieldSpec>> = vec![];
+        for (ty, ws) in &menu {
+            for a in ws {
+                for b in ws {
+                    if a != b {
+                        cases.push(vec![fs(*ty, *a), fs(7, 2), fs(*ty, *b)]);
+                        cases.push(vec![fs(*ty, *a), fs(*ty, *b), fs(*ty, *a)]);
+                    }
+                }
+            }
+        }
+        let nc = cases.len() as u64;
+        let mk = move |i: u64| -> Vec<Vec<u8>> {
+            let d = digits(i, &[nc, 3]);
+            let fields = cases[d[0] as usize].clone();
+            let body = body_for(&fields, 2, 0, None);
+            deliver(V9Set::Tpl(vec![V9Tpl { id: 256, fields }], 0), V9Set::Data(256, body), d[1])
+        };
+        v.push(stream_gen("v9-same-field-type-at-different-widths", nc * 3, move |i| Some(mk(i))));
+    }
     // 8. many records per data flowset: counts around every power of two up to what one datagram holds, three
     // template shapes, template delivered in the same packet / same buffer / an earlier call
     {
